@@ -222,8 +222,14 @@ pub fn run(ctx: &Ctx) -> Outcome {
                     let mut sizes = vec![0, 1, 2, par.saturating_sub(1), par, par + 1, 2 * par, 2 * par + 1, 3 * par + 1, 8, 9, 16, 17];
                     sizes.sort();
                     sizes.dedup();
+                    let expect_states = reachable_offsets(&sizes, nbfs) as u64;
                     let m = SizeMachine { fe: &fe, key, iv: &iv, data: &data[..nbfs * g], pre: &pre, want: &want, sizes, nmax: nbfs };
                     let st = bfs::bfs(&m, &mut rep, nbfs + 1, 100_000, &|| false);
+                    // completeness cross-check: one canonical state per reachable offset, no more, no fewer
+                    if rep.violations.is_empty() && st.states != expect_states {
+                        rep.machinery_errors.push(format!("explorer completeness cross-check failed for {} {}: {} canonical states, {} reachable offsets", cfg.name, fe.name, st.states, expect_states));
+                    }
+                    rep.count("model_states_cross_checked", expect_states);
                     rep.count("bfs_states", st.states);
                     rep.count("bfs_transitions", st.transitions);
                     rep.count("bfs_dedup_hits", st.dedup_hits);
